@@ -688,6 +688,9 @@ func (tree *Tree) returnNode(node *Node) {
 
 func (tree *Tree) Close() error {
 	tree.writerCancel()
+	// the writer goroutines work on the connections that are closed next: a prune request they
+	// have just received would otherwise fail on a closed connection and end the process
+	tree.sqlWriter.loops.Wait()
 	return tree.sql.Close()
 }
 
